@@ -258,7 +258,7 @@ def install(eng):
             "all(self.task_states[d] == LocalStatus.COMPLETED for d in sd)",
             "tid in self.task_states", "tid not in done_tasks",
             "not g_held", "not g_proc", "not g_comm", "not g_killed", "proc is None"])},
-        serves=["C11", "C12", "C13"])
+        serves=["C11", "C12", "C13", "C07"])
     eng.contracts["gwf.backends.local:Scheduler.try_handle_task"].io_may_fail = True
 
     # ================================================================== the other Scheduler methods (C13, C14)
